@@ -14,6 +14,10 @@ sys.path.insert(0, os.path.join(os.path.dirname(os.path.abspath(__file__)), ".."
 import vlib, gqlgen
 
 SCHEMA = os.path.join(vlib.ROOT, "schemas", "limits.json")
+# fields whose complexity rule reads a multi-word argument: S (rename_args = "snake_case").pages(page_size), S.top(topN:
+# renamed on the argument itself), Query.paged(perPage: default rule); and the slice of the family around them
+RENAMED_FIELDS = ("pages", "top", "paged")
+RENAMED_FOCUS = ["s", "pages", "top", "paged", "id", "n"]
 KINDS = ["depth", "complexity", "recursive", "directives"]
 
 
@@ -321,6 +325,10 @@ def body(c):
             # one fragment spread at two different nesting depths (either order, also from inside another fragment): deeper bounds on field slices
             lambda: gen_docs(c, 5 if c.quick else 6, 0, 0, 0, 0, "deep-reuse", focus=["a", "me", "n", "node", "peer", "id"], deep=True),
             lambda: gen_docs(c, 6 if c.quick else 7, 0, 0, 0, 0, "deep-reuse-via-fragment", focus=["a", "me", "n"], deep=True)]
+    # renamed arguments feeding complexity rules: every document with <=4 nodes over the slice of the object with
+    # `rename_args = "snake_case"` (S.pages(page_size)), the individually renamed argument (S.top(topN)) and the multi-word
+    # argument under the default rule (Query.paged(perPage)), up to two arguments (omitted / 0 / 1 / 4 / $c)
+    jobs.append(lambda: gen_docs(c, 4 if c.quick else 5, 0, 0, 2, 2, "renamed-args", focus=RENAMED_FOCUS))
     if not c.quick:
         jobs.append(lambda: gen_docs(c, 5, 0, 0, 0, 0, "plain"))      # undecorated, 5 nodes, incl. re-spread fragments
     with ThreadPoolExecutor(len(jobs)) as ex:
@@ -330,13 +338,14 @@ def body(c):
         c.add_tlc(label, g)
     decor = results[0][0]
     deep = results[1][0] + results[2][0]
-    plain5 = results[3][0] if not c.quick else []
+    renamed = [x for x in results[3][0] if any(nd["arg"] and nd["name"] in RENAMED_FIELDS for nd in json.loads(x))]
+    plain5 = results[4][0] if not c.quick else []
     deep = sorted(set(deep))
     ndeep_total = len(deep)
     cap_deep = 350 if c.quick else 6000
     if len(deep) > cap_deep:
         deep = rng.sample(deep, cap_deep)
-    total = len(set(decor) | set(plain5)) + ndeep_total
+    total = len(set(decor) | set(plain5) | set(renamed)) + ndeep_total
 
     parsed = {}
 
@@ -386,6 +395,15 @@ def body(c):
         d["_dense"] = True
         docs.append(d)
         ndeep += 1
+    nrenamed = 0
+    for fs in renamed:
+        d = tree_from_flat(json.loads(fs), rng, arg_names)
+        if conflicts(d):
+            dropped += 1
+            continue
+        d["_allforms"] = True
+        docs.append(d)
+        nrenamed += 1
     templates = placement_templates()
     for d in templates:
         if conflicts(d):
@@ -433,12 +451,13 @@ def body(c):
     cases = []
     for d in docs:
         if uses_var(d):
-            forms = VAR_FORMS if not c.quick else rng.sample(VAR_FORMS, 2)
+            forms = VAR_FORMS if (not c.quick or d.get("_allforms")) else rng.sample(VAR_FORMS, 2)
         else:
             forms = [VAR_FORMS[0]]
         for form in forms:
             dd, supplied = with_vars(d, form)
             dense = bool(dd.pop("_dense", False))
+            dd.pop("_allforms", None)
             cases.append({"id": len(cases) + 1, "doc": dd, "opName": dd["ops"][0]["name"], "vars": supplied, "runs": [], "dense": dense})
 
     # ---- V1: TLC computes the reference measures --------------------------------------------------------
@@ -532,6 +551,28 @@ def body(c):
     c.cov["exhaustive"] = exhaustive
     if ndeep == 0 or nrespread == 0:
         raise vlib.ToolError("vacuous: no document spreads one fragment at two different depths (TLC %d, random %d)" % (ndeep, nrespread))
+    # vacuity: a renamed argument feeding a rule was supplied by literal and by variable with a value that differs from its default
+    ren = {"literal": 0, "variable": 0}
+    defaults = {f: fd["args"][0]["default"] for t in ts["types"].values() for f, fd in t["fields"].items() if f in RENAMED_FIELDS}
+
+    def ren_walk(sels, o):
+        for s_ in sels:
+            if s_["k"] == "field" and s_["name"] in RENAMED_FIELDS and s_["args"]:
+                v = s_["args"][0]["val"]
+                if v["k"] == "int" and v["n"] != defaults[s_["name"]]:
+                    ren["literal"] += 1
+                elif v["k"] == "var" and o["vars"] and o["vars"][0]["val"]["n"] != defaults[s_["name"]]:
+                    ren["variable"] += 1
+            if s_["k"] != "spread":
+                ren_walk(s_["sels"], o)
+    for o in obs:
+        for op in o["doc"]["ops"]:
+            ren_walk(op["sels"], o)
+        for fr in o["doc"]["frags"]:
+            ren_walk(fr["sels"], o)
+    if nrenamed == 0 or min(ren.values()) < 20:
+        raise vlib.ToolError("vacuous: renamed arguments feeding complexity rules: %d documents, uses %s" % (nrenamed, ren))
+    c.cov["renamed_arguments"] = {"documents": nrenamed, "uses_with_non_default_value": ren}
     c.cov["documents"] = len(docs)
     c.cov["fragment_at_several_depths"] = {"tlc_documents": ndeep, "tlc_generated": ndeep_total, "templates": len(templates), "random_documents_respread": nrespread,
                                            "limits": "every value 0..measure+1 for depth and nesting, measure-4..measure+1 for complexity"}
@@ -542,11 +583,13 @@ def body(c):
                      "%d documents%s, %d dropped for response-key conflicts; one fragment spread at two different nesting depths (either document order, also from inside "
                      "another fragment): every such document with <=5 nodes over a 6-field slice and <=6 nodes over a 3-field slice (thorough 6 / 7), plus a "
                      "systematic template family (chain depth 4, 2-3 placements, 5 fragment bodies, through a second fragment), each run with every limit between "
-                     "the placements' measures -- plus %d seeded random documents (4-14 nodes, up to 5 directives per field, fragments re-spread at the same and at other depths) and %d "
+                     "the placements' measures; every document with <=%d nodes over the slice s/pages/top/paged/id/n with up to two arguments (a multi-word argument feeding a "
+                     "rule on an object with rename_args = snake_case, one renamed on the argument itself, one under the default camelCase rule; literal and $c in "
+                     "all five variable forms): %d documents -- plus %d seeded random documents (4-14 nodes, up to 5 directives per field, fragments re-spread at the same and at other depths) and %d "
                      "two-operation documents; crossed with the ways of defining/supplying $c; each run on the static family and (without @tag) its dynamic twin "
                      "with each limit at measure-1, measure, measure+1 (measure from TLC), one all-limits configuration and one fast-validation run; "
                      "distinct by (text, variables, flavour, mode, limits); every run is non-trivial (limit within 1 of the measure)"
-                     % (ndec, n, ndec, total, " (all of them)" if exhaustive else " (seeded sample of each set)", dropped, nrand, ntwo))
+                     % (ndec, n, ndec, total, " (all of them)" if exhaustive else " (seeded sample of each set)", dropped, 4 if c.quick else 5, nrenamed, nrand, ntwo))
     for o in obs[:1] + [o for o in obs if o["doc"]["frags"]][:2]:
         c.sample({"text": o["text"], "vars": o["vars"], "measures": meas[o["id"]],
                   "runs": [{"flavour": r["flavour"], "limits": {k: x for k, x in r["limits"].items() if x >= 0}, "rejected": r["obs"]["rejected"], "ran": r["obs"]["ran"], "verdict": rv}
